@@ -179,4 +179,15 @@ theorem validation_is_the_translated_source (s : Schema) (g : GenRequest) :
     rw [this]
     cases g.ifaceData.all (validate s) <;> simp [Except.isOk, Except.toBool]
 
+
+open Mockery.Generated.Decide in
+/-- **`VerifyJSONSchema` is the translated source**: the per-level verdict that `validateSchema` consumes (`okIf (validate s d)`)
+is what the translated `TemplateData.VerifyJSONSchema` returns when gojsonschema's verdict on the data is `validate s d`:
+it succeeds exactly on valid data, and a failing validation *call* is an error as well, never an acceptance -/
+theorem verify_is_the_translated_source (s : Schema) (d : JVal) :
+    okIf (validate s d) = (match verifyJSONSchema (some (validate s d)) id with | .ok _ => some () | .error _ => none) ∧
+    (verifyJSONSchema (R := Bool) none id).isOk = false := by
+  unfold verifyJSONSchema okIf
+  cases validate s d <;> simp [throw, throwThe, MonadExceptOf.throw, pure, Except.pure, Except.isOk, Except.toBool]
+
 end Mockery.C12
